@@ -21,7 +21,7 @@ fn build(es: &[XE]) -> Vec<u8> {
             0 => { let mut b = EntryBuilder::new_file(EntryName::from(e.name.as_str()), WriteOptions::store()).unwrap(); use std::io::Write; b.write_all(&e.content).unwrap(); if let Some(m) = e.perm { b.permission(Permission::new(0, "root".into(), 0, "root".into(), m)); } if let Some(t) = e.time { b.modified(std::time::Duration::from_secs(t)); b.accessed(std::time::Duration::from_secs(t)); } b.build().unwrap() }
             1 => { let mut b = EntryBuilder::new_dir(EntryName::from(e.name.as_str())); if let Some(m) = e.perm { b.permission(Permission::new(0, "root".into(), 0, "root".into(), m)); } if let Some(t) = e.time { b.modified(std::time::Duration::from_secs(t)); b.accessed(std::time::Duration::from_secs(t)); } b.build().unwrap() }
             2 => { let mut b = EntryBuilder::new_symbolic_link(EntryName::from(e.name.as_str()), EntryReference::from(String::from_utf8_lossy(&e.content).as_ref())).unwrap(); if let Some(m) = e.perm { b.permission(Permission::new(0, "root".into(), 0, "root".into(), m)); } if let Some(t) = e.time { b.modified(std::time::Duration::from_secs(t)); b.accessed(std::time::Duration::from_secs(t)); } b.build().unwrap() }
-            _ => EntryBuilder::new_hard_link(EntryName::from(e.name.as_str()), EntryReference::from(String::from_utf8_lossy(&e.content).as_ref())).unwrap().build().unwrap(),
+            _ => { let mut b = EntryBuilder::new_hard_link(EntryName::from(e.name.as_str()), EntryReference::from(String::from_utf8_lossy(&e.content).as_ref())).unwrap(); if let Some(m) = e.perm { b.permission(Permission::new(0, "root".into(), 0, "root".into(), m)); } b.build().unwrap() }
         };
         a.add_entry(entry).unwrap();
     }
@@ -78,11 +78,12 @@ pub fn extract_fs(ctx: &mut Ctx) {
         let fname = |rng: &mut rand_chacha::ChaCha8Rng| ["a", "b.txt", "d/x.txt", "d/e/y", "l", "l/x.txt", "d", "h", "k/z"][rng.gen_range(0..9)].to_string();
         let k = rng.gen_range(1..6);
         let mut es: Vec<XE> = vec![];
-        let scenario = if case < 12 { case } else { rng.gen_range(0..16) };
+        let scenario = if case < 13 { case } else { rng.gen_range(0..17) };
+        let k = if scenario == 12 || scenario == 10 { k.max(3) } else { k };
         // a third of the runs extract into the current directory without --out-dir (the base of every check is then empty)
-        let no_out_dir = case == 11 || (case >= 12 && case % 3 == 0); // the first twelve cases are the witnesses of the (now repaired) escapes and of links carrying permissions / times
-        let keep_perm = scenario == 5 || scenario == 9 || (scenario > 11 && rng.gen_bool(0.3));
-        let keep_time = scenario == 6 || scenario == 7 || (scenario > 11 && rng.gen_bool(0.4));
+        let no_out_dir = case == 11 || (case >= 13 && case % 3 == 0); // the first twelve cases are the witnesses of the (now repaired) escapes and of links carrying permissions / times
+        let keep_perm = scenario == 5 || scenario == 9 || scenario == 12 || (scenario > 12 && rng.gen_bool(0.3));
+        let keep_time = scenario == 6 || scenario == 7 || (scenario > 12 && rng.gen_bool(0.4));
         for i in 0..k {
             let e = match (scenario, i) {
                 (0, 0) => XE { name: "l".into(), kind: 2, content: format!("{root}/outside").into_bytes(), perm: None, time: None },          // absolute link to outside dir
@@ -105,6 +106,10 @@ pub fn extract_fs(ctx: &mut Ctx) {
                 // a hard link whose source climbs out, extracted into the current directory (no --out-dir), then a file of that name
                 (11, 0) => XE { name: "h".into(), kind: 3, content: b"../outside/secret".to_vec(), perm: None, time: None },
                 (11, 1) => XE { name: "h".into(), kind: 0, content: b"replaced by the archive".to_vec(), perm: None, time: None },
+                // a hard link entry whose source is a symbolic link entry to an outside file, carrying a permission: the new name is a
+                // second name of the LINK; chmod/chown through it would reach the outside file
+                (12, 0) => XE { name: "s".into(), kind: 2, content: b"../outside/secret".to_vec(), perm: None, time: None },
+                (12, 1) => XE { name: "h".into(), kind: 3, content: b"s".to_vec(), perm: Some(0o777), time: None },
                 (5, 0) => XE { name: "l".into(), kind: 2, content: b"../outside/secret".to_vec(), perm: Some(0o777), time: None },  // link entry carrying a permission
                 _ => {
                     let kind = [0u8, 0, 0, 1, 2, 3][rng.gen_range(0..6)];
@@ -118,7 +123,7 @@ pub fn extract_fs(ctx: &mut Ctx) {
                         2 => { let abs = format!("{root}/outside"); ["a", "d", "../out/a", "nowhere", "d/e", "../outside", "../outside/secret", "../outside/new", abs.as_str(), ".."][rng.gen_range(0..10)].as_bytes().to_vec() }
                         _ => { let abs = format!("{root}/outside/secret"); ["a", "b.txt", "../a", "d/x.txt", "../outside/secret", "l/secret", "../../outside/secret", abs.as_str(), "l", ".."][rng.gen_range(0..10)].as_bytes().to_vec() }
                     };
-                    XE { name, kind, content, perm: if keep_perm && kind != 3 { Some([0o700u16, 0o777, 0o604][rng.gen_range(0..3)]) } else { None }, time: if keep_time && kind != 3 { Some(1_000_000_000 + rng.gen_range(0..1000)) } else { None } }
+                    XE { name, kind, content, perm: if keep_perm { Some([0o700u16, 0o777, 0o604][rng.gen_range(0..3)]) } else { None }, time: if keep_time && kind != 3 { Some(1_000_000_000 + rng.gen_range(0..1000)) } else { None } }
                 }
             };
             es.push(e);
